@@ -577,7 +577,6 @@ func window(r *lib.Rng, data []byte, max int) []byte {
 	return data[start:end]
 }
 
-
 // ---------------------------------------------------------------------------------------------
 // round-2 streams
 
@@ -970,7 +969,6 @@ func main() {
 				c.Fail("parse-too-slow", fmt.Sprintf("parsing %d bytes took %v", len(data), el), in)
 			}
 		}
-
 
 		// ---- one parser, many files (Parser.ParseFile), with a watchdog per call
 		seqDir, err := os.MkdirTemp(entryBase, "verif-c19-seq-")
